@@ -72,9 +72,9 @@ def run(ctx):
             ctx.nontrivial("T:%s:%s:%s:%s" % (r["path"], r["from"], r["star"], r["to"]))
 
     def corrupt(rs):
-        # the Dag event + the first de-duplicated CAR with >= 3 blocks, its last block dropped:
+        # the Dag event + the smallest de-duplicated CAR with >= 3 blocks, its last block dropped:
         # the End event must violate Sufficient (short trace: the control costs one TLC start)
-        dag = None
+        dag, best = None, None
         for i, r in enumerate(rs):
             if r["ev"] == "Dag":
                 dag = r
@@ -82,10 +82,13 @@ def run(ctx):
                 j = i + 1
                 while j < len(rs) and rs[j]["ev"] == "Block":
                     j += 1
-                if j - i - 1 >= 3 and j < len(rs) and rs[j]["ev"] == "End":
-                    bad = [dag] + rs[i:j - 1] + [rs[j]]
-                    return bad, len(bad)
-        return None, None
+                if j - i - 1 >= 3 and j < len(rs) and rs[j]["ev"] == "End" and (best is None or j - i < best[2] - best[1]):
+                    best = (dag, i, j)
+        if best is None:
+            return None, None
+        dag, i, j = best
+        bad = [dag] + rs[i:j - 1] + [rs[j]]
+        return bad, len(bad)
     ctx.validate_trace("GatewayCar", "TraceGatewayCar.tla", "TraceGatewayCar.cfg", recs,
                        count_runs=lambda rs: sum(1 for r in rs if r["ev"] in ("Req", "Raw")),
                        negative=corrupt, timeout=600 if q else 3000)
